@@ -308,6 +308,20 @@ class Renderer:
         self.ind = ind
 
     # -- expressions (inline) ----------------------------------------------------------------------
+    def elem(self, x):
+        """An element of a list or tuple (inside brackets): a call of a named function with one simple argument may be
+        written without parentheses there -- inside brackets a comma belongs to the brackets, so such a call takes exactly
+        one argument ([f x, y] is [f(x), y]; parser: `inside_braces`) -- also after `not`."""
+        def bare(a):
+            return (a["k"] == "app" and a["f"]["k"] == "id" and len(a["args"]) == 1 and self._simple_free_arg(a["args"][0])
+                    and a["args"][0]["k"] not in ("spread", "list", "tuple"))
+        if self.L.rng is not None:
+            if bare(x) and self.L.pick(2, 0.7) == 1:
+                return "%s %s" % (x["f"]["n"], self.arg(x["args"][0]))
+            if x["k"] == "not" and bare(x["a"]) and self.L.pick(2, 0.6) == 1:
+                return "not %s %s" % (x["a"]["f"]["n"], self.arg(x["a"]["args"][0]))
+        return self.paren(x)
+
     def paren(self, n):
         s = self.expr(n)
         k = n["k"]
@@ -368,14 +382,14 @@ class Renderer:
         if k == "neg":
             return "-" + self.paren_strict(n["a"])
         if k == "list":
-            return "[" + ", ".join(self.paren(x) for x in n["xs"]) + "]"
+            return "[" + ", ".join(self.elem(x) for x in n["xs"]) + "]"
         if k == "tuple":
             xs = n["xs"]
             if len(xs) == 0:
                 return "()"
             if len(xs) == 1:
                 return "(" + self.paren(xs[0]) + ",)"
-            return "(" + ", ".join(self.paren(x) for x in xs) + ")"
+            return "(" + ", ".join(self.elem(x) for x in xs) + ")"
         if k == "map":
             ents = ["%s: %s" % (kk, self.paren(v)) for kk, v in zip(n["ks"], n["vs"])]
             ents += ["%s: %s" % (kk, self.paren(v)) for kk, v in zip(n.get("mks", []), n.get("mvs", []))]
@@ -398,7 +412,8 @@ class Renderer:
         if k == "mcall":
             return "%s.%s(%s)" % (self.recv(n["c"]), n["m"], ", ".join(self.paren(a) for a in n["args"]))
         if k == "app":
-            return "%s(%s)" % (self.recv(n["f"]), ", ".join(self.arg(a) for a in n["args"]))
+            # arguments inside call parentheses are inside brackets too (see elem)
+            return "%s(%s)" % (self.recv(n["f"]), ", ".join(self.expr(a) if a["k"] == "spread" else self.elem(a) for a in n["args"]))
         if k == "asg":
             return "%s = %s" % (n["n"], self.paren(n["e"]))
         if k == "opasg":
